@@ -151,14 +151,19 @@ func inferContracts(fn *ssa.Function) Contracts {
 		}
 
 		// Update nilnessTableSetByBB for this block.
+		// The block is updated if _any_ of the tables is new. The predecessors are visited in their
+		// order in the CFG (not in the iteration order of the map), such that the order of the
+		// tables in the set is deterministic.
 		var isUpdated bool
-		for _, tables := range nilnessTablesUnderPred {
-			for _, table := range tables {
+		for _, pred := range b.Preds {
+			for _, table := range nilnessTablesUnderPred[pred] {
 				if len(table) == 0 {
 					continue
 				}
 				// Only save the table if it is not empty.
-				nilnessTableSetByBB[b], isUpdated = add(nilnessTableSetByBB[b], table)
+				var added bool
+				nilnessTableSetByBB[b], added = add(nilnessTableSetByBB[b], table)
+				isUpdated = isUpdated || added
 			}
 		}
 
